@@ -146,6 +146,12 @@ ENV_READS = {'os.environ.get(DEEP_RESOURCE_ATTRIBUTES)': 'resAttrs', 'os.environ
 
 
 class DetectTr(XTranslator):
+    def e_Call(self, n):
+        # str.strip() with no argument: the ASCII strip of Model/ResEnv.lean (Py.strip lacks \x1c-\x1f)
+        if isinstance(n.func, ast.Attribute) and n.func.attr == 'strip' and not n.args and not n.keywords:
+            return f'(asciiStrip {self.expr(n.func.value)})'
+        return super().e_Call(n)
+
     def e_Dict(self, n):
         if n.keys:
             raise Untranslatable('dict display: ' + ast.unparse(n))
